@@ -252,6 +252,58 @@ class FileLevel(Part):
         return res
 
 
+class Volume(Part):
+    name = "large_inputs"
+    desc = "one large ordinary input per configuration (horizon): thousands of distinct addresses, secrets, words"
+
+    def __init__(self, tier, seed):
+        self.tier, self.seed = tier, seed
+
+    def cases(self):
+        n = 9000 if self.tier == "quick" else 60000
+        return [{"kind": k, "n": n} for k in ("v6", "v4", "secrets", "mixed")]
+
+    def run(self, case):
+        import ipaddress
+
+        res = Res()
+        n, kind = case["n"], case["kind"]
+        x = 777 + self.seed
+        lines = []
+        for i in range(n):
+            x = (x * 6364136223846793005 + 1442695040888963407) & ((1 << 128) - 1)
+            v6 = str(ipaddress.IPv6Address(x))
+            v4 = str(ipaddress.IPv4Address((x >> 40) & 0xFFFFFFFF))
+            if kind == "v6":
+                lines.append(" ipv6 route %s/64 via %s" % (v6, v6))
+            elif kind == "v4":
+                lines.append(" ip route %s 255.255.255.0 %s" % (v4, v4))
+            elif kind == "secrets":
+                lines.append("username user%d password 0 secretNumber%dx" % (i, i))
+            else:
+                lines.append("neighbor %s peer %s password pw%d remote-as %d seattle%d" % (v4, v6, i, 65001, i))
+        from netconan.anonymize_files import FileAnonymizer
+
+        try:
+            with seams.capture_logs():
+                fa = FileAnonymizer(salt="saltForTest", **FEATURES_ALL)
+                out = io.StringIO()
+                fa.anonymize_io(io.StringIO("".join(l + "\n" for l in lines)), out)
+            got = out.getvalue().count("\n")
+        except Exception as e:
+            got = None
+            # locate the failing line for the message
+            res.violation("exception:%s|large-input-%s" % (type(e).__name__, kind),
+                          "%d ordinary lines of kind %s: %s: %s" % (n, kind, type(e).__name__, str(e)[:120]), case)
+        res.evals += n
+        res.nt((kind, n))
+        res.out(got)
+        if got is not None and got != n:
+            res.violation("line-count|large-input", "%d in, %r out" % (n, got), case)
+        res.samples.append({"kind": kind, "lines": n, "example": lines[0]})
+        return res
+
+
 def parts(tier, seed):
     return [ShortStrings(tier, seed), SlotFillers(tier, seed), LongRuns(tier, seed), Salts(tier, seed),
-            FileLevel(tier, seed)]
+            FileLevel(tier, seed), Volume(tier, seed)]
